@@ -127,8 +127,22 @@ func (info *NodeInfo) DecodeJSON(b []byte, enc encoder.Encoder) error {
 
 	params := isaac.NewParams(info.networkID)
 
-	if err := encoder.Decode(enc, u.Local.LocalParams, params); err != nil {
+	// NOTE the decoder of isaac.Params can be registered with the pointer
+	// instance, &isaac.Params{} or the value instance, isaac.Params{}.
+	switch i, err := enc.Decode(u.Local.LocalParams); {
+	case err != nil:
 		return e.Wrap(err)
+	default:
+		switch t := i.(type) {
+		case *isaac.Params:
+			if t != nil {
+				params = t
+			}
+		default:
+			if err := util.SetInterfaceValue(i, params); err != nil {
+				return e.Wrap(err)
+			}
+		}
 	}
 
 	if err := params.SetNetworkID(info.networkID); err != nil {
